@@ -269,6 +269,9 @@ def judge_eof(acc, api, kind, cuts, eof_at, got, fault: t.Optional[str] = None) 
 
 
 def run_shard(shard, tier, seed, acc) -> None:
+    import socket as _socket
+
+    _socket.setdefaulttimeout(0.25)  # the application has set a process-wide default socket timeout (part of the environment)
     seams.block_network()
     what, api = shard[0], shard[1]
     small = 200 if tier == "quick" else 400
@@ -392,6 +395,9 @@ def run_shard(shard, tier, seed, acc) -> None:
 
 
 def replay(case, seed, acc) -> None:
+    import socket as _socket
+
+    _socket.setdefaulttimeout(0.25)
     seams.block_network()
     label, api, kind = case[0], case[1], case[2]
     if label == "seq":
